@@ -436,6 +436,70 @@ type result struct {
 // lintLevel: the diagnostics of the rule as the LINTER returns them (Linter.Lint, the entry point a
 // user has) are the ones the rule produced - none lost, none added - also when the run is given
 // -ignore patterns none of which matches a message of this rule
+// entryPoints: the same cyclic workflow through the other entry points of the linter - a repository
+// run (the workflow file is a symbolic link), a multi-file run with a -format template - yields the
+// one cyclic-dependency diagnostic each time
+func entryPoints(out string) []failure {
+	var fails []failure
+	root := filepath.Join(out, "entryproj")
+	os.RemoveAll(root)
+	hx.Must(os.MkdirAll(filepath.Join(root, ".git"), 0o755))
+	hx.Must(os.MkdirAll(filepath.Join(root, ".github", "workflows"), 0o755))
+	hx.Must(os.MkdirAll(filepath.Join(root, "shared"), 0o755))
+	cyc := "on: push\njobs:\n  build:\n    needs: [test]\n    runs-on: ubuntu-latest\n    steps:\n      - run: echo\n  pack:\n    needs: [build]\n    runs-on: ubuntu-latest\n    steps:\n      - run: echo\n  test:\n    needs: [pack]\n    runs-on: ubuntu-latest\n    steps:\n      - run: echo\n"
+	self := "on: push\njobs:\n  deploy:\n    needs: [deploy]\n    runs-on: ubuntu-latest\n    steps:\n      - run: echo\n"
+	plain := "on: push\njobs:\n  a:\n    runs-on: ubuntu-latest\n    steps:\n      - run: echo\n"
+	a := filepath.Join(root, ".github", "workflows", "a.yaml")
+	b := filepath.Join(root, ".github", "workflows", "b.yaml")
+	hx.Must(os.WriteFile(a, []byte(cyc), 0o644))
+	hx.Must(os.WriteFile(b, []byte(plain), 0o644))
+	hx.Must(os.WriteFile(filepath.Join(root, "shared", "ci.yaml"), []byte(self), 0o644))
+	hx.Must(os.Symlink(filepath.Join("..", "..", "shared", "ci.yaml"), filepath.Join(root, ".github", "workflows", "ci.yaml")))
+	count := func(errs []*actionlint.Error, frag string) int {
+		n := 0
+		for _, e := range errs {
+			if e.Kind == "job-needs" && strings.Contains(e.Message, "cyclic dependencies") && strings.Contains(e.Message, frag) {
+				n++
+			}
+		}
+		return n
+	}
+	for _, c := range []struct {
+		name string
+		opts *actionlint.LinterOptions
+		run  func(l *actionlint.Linter) ([]*actionlint.Error, error)
+	}{
+		{"repository", &actionlint.LinterOptions{Shellcheck: "", Pyflakes: ""}, func(l *actionlint.Linter) ([]*actionlint.Error, error) { return l.LintRepository(root) }},
+		{"files", &actionlint.LinterOptions{Shellcheck: "", Pyflakes: ""}, func(l *actionlint.Linter) ([]*actionlint.Error, error) {
+			return l.LintFiles([]string{a, b, filepath.Join(root, ".github", "workflows", "ci.yaml")}, nil)
+		}},
+		{"files-with-format", &actionlint.LinterOptions{Shellcheck: "", Pyflakes: "", Format: "{{range $e := .}}{{$e.Message}}\n{{end}}"}, func(l *actionlint.Linter) ([]*actionlint.Error, error) {
+			return l.LintFiles([]string{a, b, filepath.Join(root, ".github", "workflows", "ci.yaml")}, nil)
+		}},
+		{"file-with-format", &actionlint.LinterOptions{Shellcheck: "", Pyflakes: "", Format: "{{range $e := .}}{{$e.Message}}\n{{end}}"}, func(l *actionlint.Linter) ([]*actionlint.Error, error) {
+			return l.LintFile(a, nil)
+		}},
+	} {
+		l, err := actionlint.NewLinter(io.Discard, c.opts)
+		hx.Must(err)
+		errs, err := c.run(l)
+		n1, n2 := count(errs, "\"build\""), count(errs, "\"deploy\"")
+		want2 := 1
+		if c.name == "file-with-format" {
+			want2 = 0
+		}
+		if err != nil || n1 != 1 || n2 != want2 {
+			fails = append(fails, failure{What: fmt.Sprintf("entry point %s: %d cyclic-dependency diagnostics for the cycle build -> pack -> test and %d for the self-dependency of deploy (exactly 1 and %d are demanded; error %v)", c.name, n1, n2, want2, err),
+				Key: "entry-point:" + c.name, Workflow: cyc + "---\n" + self})
+		}
+	}
+	os.RemoveAll(root)
+	return fails
+}
+
+var lintLevelCfg sync.Once
+var lintLevelCfgPath string
+
 func lintLevel(src string, w *actionlint.Workflow) string {
 	rule := actionlint.NewRuleJobNeeds()
 	v := actionlint.NewVisitor()
@@ -448,8 +512,18 @@ func lintLevel(src string, w *actionlint.Workflow) string {
 		want = append(want, fmt.Sprintf("%d:%d: %s", e.Line, e.Column, e.Message))
 	}
 	sort.Strings(want)
+	lintLevelCfg.Do(func() {
+		f, err := os.CreateTemp("/var/tmp", "c18-actionlint-*.yaml")
+		hx.Must(err)
+		// `paths` entries that do not apply to .github/workflows/test.yaml: a bare file name, another
+		// directory, another extension
+		f.WriteString("paths:\n  test.yaml:\n    ignore: ['.*']\n  workflows/test.yaml:\n    ignore: ['.*']\n  .github/workflows/test.yml:\n    ignore: ['.*']\n  '*.yaml':\n    ignore: ['.*']\n")
+		f.Close()
+		lintLevelCfgPath = f.Name()
+	})
 	for oi, opts := range []*actionlint.LinterOptions{
 		{Shellcheck: "", Pyflakes: ""},
+		{Shellcheck: "", Pyflakes: "", ConfigFile: lintLevelCfgPath},
 		// patterns that match no message of the rule: an inline flag group first, then fragments of the
 		// rule's messages in the wrong letter case
 		{Shellcheck: "", Pyflakes: "", IgnorePatterns: []string{"(?i)sc[0-9]{4} zz-nothing", "CYCLIC DEPENDENCIES", "DOES NOT EXIST", "IS ALREADY LISTED", "^JOB ", "\"[A-Z][A-Z0-9_-]*\" ->"}},
@@ -459,7 +533,11 @@ func lintLevel(src string, w *actionlint.Workflow) string {
 		if err != nil {
 			return "linter-options: " + err.Error()
 		}
-		errs, err := l.Lint("test.yaml", []byte(src), nil)
+		name := "test.yaml"
+		if opts.ConfigFile != "" {
+			name = ".github/workflows/test.yaml"
+		}
+		errs, err := l.Lint(name, []byte(src), nil)
 		if err != nil {
 			return "lint-error: " + err.Error()
 		}
@@ -1087,6 +1165,9 @@ func main() {
 	sum.Rule = "needs graphs: every edge set (self loops included) over 1-4 jobs in ascending and descending order of the needs entries, references in both spellings; 3 jobs with every needs list up to a length bound over {a, A, b, c, x (dangling), empty}; 5-job graphs (random edge sets of random density; thorough: half of them a bijective stride through all 2^25 edge sets); 4- and 5-job graphs with the needs entries in random order; ids with a per cent sign; a duplicated acyclic reference next to a cyclic one; job ids that only Unicode case folding identifies (s / long s, sigma / final sigma, micro / mu); 3-5 jobs written as ONE flow-style line (positions differ in the column only; more repetitions); random graphs of 6-40 jobs (DAG, one embedded simple cycle, dense) with dangling/duplicate/case-variant references. non-trivial = the rule reports a missing reference or a cycle; distinct = distinct workflow text"
 	hangReport = func(src string) {
 		sum.OracleFails = append(sum.OracleFails, failure{What: "the rule does not terminate on this input within 20 s", Key: "hang:" + src, Workflow: src})
+		if lintLevelCfgPath != "" {
+			os.Remove(lintLevelCfgPath)
+		}
 		sum.Write(filepath.Join(*out, "summary.json"))
 		os.Exit(0)
 	}
@@ -1333,5 +1414,12 @@ func main() {
 	}
 	casesF.Close()
 	srcsF.Close()
+	for _, f := range entryPoints(*out) {
+		sum.OracleFails = append(sum.OracleFails, f)
+	}
+	sum.Dist["entry_point_runs"] += 4
+	if lintLevelCfgPath != "" {
+		os.Remove(lintLevelCfgPath)
+	}
 	sum.Write(filepath.Join(*out, "summary.json"))
 }
